@@ -34,7 +34,9 @@ pub fn c16(tier: Tier) -> ! {
     // three passes over the table on one thread (forward, reverse, forward): what a name yields
     // must not depend on what was asked for before
     let order: Vec<&str> = GROUP_NAMES.iter().cloned().chain(GROUP_NAMES.iter().rev().cloned()).chain(GROUP_NAMES.iter().cloned()).collect();
-    for name in order.iter() {
+    for (oi, name) in order.iter().enumerate() {
+        // the second pass runs with every log statement of the crate switched on
+        crate::common::logging(oi >= GROUP_NAMES.len() && oi < 2 * GROUP_NAMES.len());
         let group = match get_wallpaper_group(wallpaper_enum(name)) {
             Ok(g) => g,
             Err(e) => {
@@ -160,6 +162,7 @@ pub fn c16(tier: Tier) -> ! {
         }
         run.sample(json!({"group": name, "family": fam, "strings": group.wyckoff_str, "content": [twofold, mirrors, glides]}));
     }
+    crate::common::logging(false);
     // depth-2 histories: on a fresh thread one operation string goes through the parser (valid
     // ones, and ones the parser must reject at its first or second component), then a group is
     // built; its operations are the ITA general positions whatever was parsed before
@@ -205,6 +208,48 @@ pub fn c16(tier: Tier) -> ! {
         }
     }
     run.set("groups_built_after_one_parse_on_a_fresh_thread", pj.len() as u64);
+    // names as the command line reads them (the enum's own FromStr): every upper/lower-case
+    // spelling of the seven names and the short Hermann-Mauguin symbols; a spelling that is
+    // accepted must yield the table of the group it spells
+    let short: [(&str, &str); 5] = [("pm", "p1m1"), ("pg", "p1g1"), ("pmm", "p2mm"), ("pmg", "p2mg"), ("pgg", "p2gg")];
+    let mut spellings: Vec<(String, &str)> = vec![];
+    for name in GROUP_NAMES.iter().cloned().chain(short.iter().map(|x| x.0)) {
+        let target = short.iter().find(|x| x.0 == name).map(|x| x.1).unwrap_or(name);
+        let chars: Vec<char> = name.chars().collect();
+        for mask in 0..(1u32 << chars.len()) {
+            let sp: String = chars.iter().enumerate().map(|(i, c)| if mask >> i & 1 == 1 { c.to_ascii_uppercase() } else { *c }).collect();
+            if !spellings.iter().any(|(x, _)| *x == sp) {
+                spellings.push((sp, target));
+            }
+        }
+    }
+    let mut accepted = 0u64;
+    for (sp, target) in spellings.iter() {
+        evals += 1;
+        let parsed = match std::panic::catch_unwind(|| sp.parse::<packing::wallpaper::WallpaperGroups>()) {
+            Ok(p) => p,
+            Err(_) => {
+                run.fail(None, &format!("reading the group name {:?} panicked", sp), json!({"engine": "name", "name": sp}));
+                continue;
+            }
+        };
+        if let Ok(g) = parsed {
+            accepted += 1;
+            let ok = match get_wallpaper_group(g).and_then(|grp| WyckoffSite::new(&grp).map(|s| (format!("{:?}", grp.family), s))) {
+                Ok((fam, site)) => {
+                    let ops: Vec<Aff> = site.symmetries.iter().map(Aff::from_t2).collect();
+                    let ita: Vec<Aff> = ita_ops(target).iter().map(|o| o.as_aff()).collect();
+                    fam == ita_family(target) && ops.len() == ita.len() && ita.iter().all(|i| ops.iter().filter(|o| aff_eq_mod_lattice(o, i)).count() == 1)
+                }
+                Err(_) => false,
+            };
+            if !ok {
+                run.fail(None, &format!("the group name {:?} is accepted but does not yield the operations and family of {}", sp, target), json!({"engine": "name", "name": sp, "group": target}));
+            }
+        }
+    }
+    run.set("name_spellings_read", spellings.len() as u64);
+    run.set("name_spellings_accepted", accepted);
     run.set("evaluations", evals);
     run.set("distinct_nontrivial", distinct);
     run.set("exhaustive", true);
@@ -542,6 +587,23 @@ pub fn c17(tier: Tier) -> ! {
         }
     }
     run.set("rejected_then_good_pairs", poison);
+    // different texts of the same length parsed one after the other from one reused buffer (the
+    // same address and length every time): each has its own value
+    let nx = Component { terms: vec![Term::X(true)] };
+    let ny = Component { terms: vec![Term::Y(true)] };
+    let mut buf = String::with_capacity(64);
+    let mut reused = 0u64;
+    for round in 0..3 {
+        for (t, c1, c2) in [("x,y", &x, &y), ("y,x", &y, &x), ("x,y", &x, &y), ("-x,y", &nx, &y), ("-y,x", &ny, &x), ("x,-y", &x, &ny), ("y,-x", &y, &nx), ("-x,-y", &nx, &ny), ("-y,-x", &ny, &nx), ("-x,-y", &nx, &ny)].iter() {
+            buf.clear();
+            buf.push_str(t);
+            reused += 1;
+            if let Err(e) = check_parse(&buf, c1, c2) {
+                run.fail(None, &format!("parsed from a reused buffer (round {}): {}", round, e), json!({"string": t, "engine": "reused-buffer"}));
+            }
+        }
+    }
+    run.set("texts_parsed_from_one_reused_buffer", reused);
     panic::set_hook(prev_hook);
     run.set("robustness_strings", rn);
     run.set("robustness_max_len", maxlen as u64);
